@@ -22,17 +22,9 @@ def varIx? (w : String) : Option Nat :=
 def strOfHex? (w : String) : Option String := (hexBytes? w).map (fun l => String.ofList (l.map Char.ofNat))
 def hexOfStr (s : String) : String := bytesHex (s.toUTF8.toList.map (·.toNat))
 
-/-- rendering the stack text of an error descends into `*Error` causes and dereferences a typed-nil `*Error` cause;
-    the harness looks at the text (to see the `wrapped` flag) only when that cannot happen -/
-def causeSafe (h : Heap) : Nat → Val → Bool
-  | 0, _ => false
-  | _, .typedNil => false
-  | fuel+1, .ref id => match h[id]? with | some n => causeSafe h fuel n.cause | none => false
-  | _, _ => true
-
-def nodeDesc (h : Heap) (n : ENode) : String :=
+def nodeDesc (n : ENode) : String :=
   hexOfStr n.msg ++ "." ++ (if n.hasStack then "s" else "") ++ (if n.cause != .nilIface then "c" else "") ++
-    (if n.cause != .nilIface && causeSafe h (h.size + 1) n.cause && n.wrapped then "w" else "")
+    (if n.cause != .nilIface && n.wrapped then "w" else "")
 
 def sameAs (s : St) (v : Val) : String :=
   match s.vars.find? (fun p => p.2 == v) with
@@ -49,7 +41,7 @@ def valDesc (s : St) (v : Val) : String :=
   | .ref id =>
     "e" ++ sameAs s v ++ "[" ++ toString (count s.heap id) ++ "|" ++ hexOfStr (message s.heap id) ++ "|" ++
       (if errorOrNil s.heap v == .nilIface then "z" else "n") ++ "|" ++
-      ";".intercalate ((wrappedErrors s.heap id).map (nodeDesc s.heap)) ++ "]"
+      ";".intercalate ((wrappedErrors s.heap id).map nodeDesc) ++ "]"
 
 /-- every variable, observed; plus an alarm if a heap built without `clone` breaks the invariant the theorems assume -/
 def dump (s : St) : String :=
@@ -99,6 +91,10 @@ def exec (s : St) (k : Nat) (op : String) (args : List String) : St × String :=
   | "unwrap", [a] =>
     match varIx? a with
     | some a => assign s k s.heap (unwrap s.heap (s.get a))
+    | none => (s, "bad-op")
+  | "render", [a] =>   -- the harness renders the value with every verb (judged there); the result is the value itself
+    match varIx? a with
+    | some a => assign s k s.heap (s.get a)
     | none => (s, "bad-op")
   | "eon", [a] =>
     match varIx? a with
